@@ -400,6 +400,8 @@ def mask(rng, shape, kind=None):
     kind = kind or ["all", "random", "halfplane", "single", "block"][rng.integers(0, 5)]
     if kind == "all":
         return np.ones(shape, dtype=bool)
+    if kind == "none":
+        return np.zeros(shape, dtype=bool)
     if kind == "random":
         m = rng.random(shape) < rng.uniform(0.3, 0.8)
     elif kind == "single":
